@@ -24,7 +24,7 @@ from .findings import classify, load_known  # noqa: E402
 
 
 def write_replay(prop, payload):
-    d = os.path.join(VERIF, "replays", prop)
+    d = os.path.join(os.environ.get("VERIF_REPLAY_DIR") or os.path.join(VERIF, "replays"), prop)
     os.makedirs(d, exist_ok=True)
     blob = json.dumps(payload, sort_keys=True)
     sha = hashlib.sha256(blob.encode()).hexdigest()[:12]
@@ -136,8 +136,9 @@ def main(argv=None):
         "wall_s": round(time.time() - t0, 1),
         "violations": len({f["clause"] + "@" + f["case"] for f, _, _ in out["violations"]}),
     }
-    os.makedirs(os.path.join(VERIF, "evidence"), exist_ok=True)
-    with open(os.path.join(VERIF, "evidence", prop + ".json"), "w") as f:
+    evdir = os.environ.get("VERIF_EVIDENCE_DIR") or os.path.join(VERIF, "evidence")
+    os.makedirs(evdir, exist_ok=True)
+    with open(os.path.join(evdir, prop + ".json"), "w") as f:
         json.dump(ev, f, indent=1, sort_keys=True)
     print("%s %s: %d cases, %d trace positions, L1 %s, %d violation(s), %d known, %.0fs"
           % (prop, tier, len(recs), res["positions"],
